@@ -101,6 +101,26 @@ def u3():
         out.append(St(Sc("f32"), Ref(t)))
         out.append(St(URef(t, S_S)))
     out.append(URef(S2_REF, A2_REFARR))
+    # structs with three and four dynamically sized fields (offset table of more than one word)
+    out += [St(STR, A_DS, S_D1), St(Sc("i8"), STR, A_DD, STR), St(A_DD, STR, S_D2, Sc("f64"), A_DS2)]
+    # N-D arrays of dynamic items with cyclic axis orders *nested* inside other objects: they are reached through views only
+    cyc = [Arr(STR, (2, 3, 4), (1, 2, 0)), Arr(STR, (None, 3, None), (2, 0, 1)), Arr(S_D1, (2, 2, 2), (2, 0, 1)), Arr(A_DS, (2, None, 2), (1, 2, 0))]
+    for a in cyc:
+        out.append(St(Sc("i8"), a))
+        out.append(St(a, STR))
+        out.append(Arr(a, (2,)))
+        out.append(St(Ref(a), Sc("i64")))
+    return out
+
+
+def u2_structs3():
+    """all 3-field structs over leaf and level-1 representatives (thorough tier)"""
+    pool = R0 + R1 + R1_REFS[:2] + R1_UREFS[:1]
+    out = []
+    for fs in itertools.product(pool, repeat=3):
+        if all(f in R0 for f in fs):
+            continue
+        out.append(St(*fs))
     return out
 
 
@@ -110,12 +130,16 @@ def universe(tier, what="all"):
         ts = u1_arrays() + u1_structs(2) + u2_arrays() + u2_structs(1) + [St(a, b) for a in (S_D1, A_DS, Ref(S_S), URef(S_S, S_D2)) for b in R0 + R1 + R1_REFS] + u2_urefs() + u3()
     else:
         ts = u1_arrays() + u1_structs(3) + u2_arrays() + u2_structs(2) + u2_urefs() + u3()
+        if what == "all+3":
+            ts = ts + u2_structs3()
     seen = set()
     out = []
     for t in ts:
         if t not in seen:
             seen.add(t)
             out.append(t)
+    if what == "all+3":
+        what = "all"
     if what == "noref":
         out = [t for t in out if not has_refs(t)]
     return out
@@ -154,6 +178,9 @@ def rh(tier):
         St(Sc("i32"), A_DD),
         St(Arr(STR, (2, 2), (1, 0)), Sc("u8")),
         St(Arr(A_DS, (2,)), STR),
+        St(Sc("i8"), Arr(STR, (2, 2, 2), (1, 2, 0))),
+        St(STR, A_DS, S_D1),
+        Arr(Arr(STR, (2, 1, 2), (2, 0, 1)), (2,)),
     ]
     if tier == "thorough":
         ts += [
